@@ -9,8 +9,8 @@ func init() {
 		Title: "Downstream batching is transparent",
 		Kernels: []Kernel{
 			{Name: "query-all-interleavings", Pkg: "queryer", Files: []string{"queryer/c11.go"}, Entry: "VerifQuery", Mode: "all", Race: true,
-				Quick:    map[string]int{"nmax": 2, "mmax": 2},
-				Thorough: map[string]int{"nmax": 3, "mmax": 2},
+				Quick:    map[string]int{"nmax": 3, "mmax": 3},
+				Thorough: map[string]int{"nmax": 4, "mmax": 4},
 				Reach:    []string{"some call failed", "several chunks", "empty input"}, Functions: fns},
 			{Name: "query-canonical-schedule", Pkg: "queryer", Files: []string{"queryer/c11.go"}, Entry: "VerifQuery", Mode: "seq",
 				Quick:    map[string]int{"nmax": 7, "mmax": 4},
